@@ -674,6 +674,7 @@ static void init(const sk_opts* o)
 	add_table(fc_math, fc_math_n);
 	add_table(fc_math2, fc_math2_n);
 	add_table(fc_ww, fc_ww_n);
+	add_table(fc_util, fc_util_n);
 	add_table(fc_other, fc_other_n);
 	add_table(fc_der, fc_der_n);
 	add_table(fc_params, fc_params_n);
